@@ -14,6 +14,7 @@ import (
 	"github.com/mimecast/dtail/internal/lcontext"
 	"github.com/mimecast/dtail/internal/omode"
 	"github.com/mimecast/dtail/internal/regex"
+	"github.com/mimecast/dtail/internal/vhook"
 )
 
 type readCommand struct {
@@ -150,6 +151,7 @@ func (r *readCommand) read(ctx context.Context, ltx lcontext.LContext,
 		case <-limiter:
 		default:
 		}
+		vhook.Point("read.limiter.released")
 	}()
 
 	select {
@@ -159,6 +161,7 @@ func (r *readCommand) read(ctx context.Context, ltx lcontext.LContext,
 		return
 	default:
 		dlog.Server.Info("Server limit hit, queueing file", len(limiter), path)
+		vhook.Point("read.limiter.wait")
 		select {
 		case limiter <- struct{}{}:
 			acquired = true
@@ -168,6 +171,7 @@ func (r *readCommand) read(ctx context.Context, ltx lcontext.LContext,
 		}
 	}
 
+	vhook.Point("read.limiter.acquired")
 	lines := r.server.lines
 	aggregate := r.server.aggregate
 
@@ -175,6 +179,7 @@ func (r *readCommand) read(ctx context.Context, ltx lcontext.LContext,
 		if aggregate != nil {
 			lines = make(chan *line.Line, 100)
 			aggregate.NextLinesCh <- lines
+			vhook.Point("read.registered")
 		}
 		if err := reader.Start(ctx, ltx, lines, re); err != nil {
 			dlog.Server.Error(r.server.user, path, globID, err)
